@@ -852,6 +852,18 @@ class MutableFileVersion:
             # careful on subsequent tries.
             d = self._update_servermap(mode=MODE_CHECK)
 
+        def _reselect_version(ignored):
+            # Another writer may have replaced every share of the version
+            # this object was built from; the refreshed servermap then no
+            # longer knows that version (and Retrieve fails with KeyError).
+            # Apply the modifier to the best version that the servermap we
+            # just refreshed can recover.
+            best = self._servermap.best_recoverable_version()
+            if best is None:
+                raise UnrecoverableFileError("no recoverable versions")
+            self._version = best
+        d.addCallback(_reselect_version)
+
         d.addCallback(lambda ignored:
             self._modify_once(modifier, first_time))
         def _retry(f):
